@@ -423,6 +423,8 @@ def shards(tier, seed):
         out.append(("every_instruction_%d" % i, dict(kind="random", scenarios=(18 if q else 72), per=4 if q else 20, instr="ALL", pswitch=(0.003, 0.01, 0.03), offset=i * 9)))
     for i in range(6 if q else 16):
         out.append(("stores_%d" % i, dict(kind="stores", scenarios=5 if q else 40, maxpos=150, limit2=30 if q else 400, offset=i * 5)))
+    out.append(("child_stores", dict(kind="stores", scenarios=4 if q else 30, maxpos=150, limit2=20 if q else 300, offset=3, _pyopt="opt")))
+    out.append(("child_random", dict(kind="random", scenarios=8 if q else 40, per=8 if q else 40, instr=True, _pyopt="opt+hashseed")))
     out.append(("prod_random", dict(kind="prod", cname="SECP112r2", scenarios=2 if q else 12, per=4 if q else 20)))
     if not q:
         out.append(("prod_random_192", dict(kind="prod", cname="NIST192p", scenarios=4, per=10)))
